@@ -302,7 +302,6 @@ def random_model_record(dex, rnd, max_classes):
     g = Dex(classes)
     g.layout['string_data_order'] = rnd.choice([None, None, 'reverse', 'interleave'])      # string ids only store offsets
     raw = g.build()
-    d = dex.DEX(raw)
     # ranks: order-isomorphic integers
     ci = {c: i + 1 for i, c in enumerate(sorted(cnames))}
     ni = {n: i + 1 for i, n in enumerate(sorted(POOL_N))}
@@ -312,6 +311,7 @@ def random_model_record(dex, rnd, max_classes):
     rec = dict(fields=[[ci[c], ni[n], tis[t], st, fl] for (c, n, t, st, fl) in F],
                methods=[[ci[c], ni[n], pis[p], dr, has, fl] for (c, n, p, dr, has, fl) in M])
     try:
+        d = dex.DEX(raw)
         _observe_model(dex, d, rec, rnd, cnames, ci, ni, tis, pis, pdesc, F, M, protos)
     except Exception as e:                   # a parser / accessor that raises on a well-formed file has not reported what the file declares
         rec["rep_fields"], rec["rep_methods"], rec["q"] = [[-9, -9, -9, -9]], [[-9, -9, -9, -9, False]], []
